@@ -177,3 +177,50 @@ Definition lp_post (m : mdp) (values : vec) : vec * list nat * mat :=
 Definition lp_post_g (g : gmodel) (values : vec) : vec * list nat * mat :=
   let q := compute_q_g g (imm_rewards_g g) (vscale (ggam g) values) in
   (values, snd (bellman q), q).
+
+(* ------------------------------------------------------------------ PolicyIteration *)
+(* src: Bandit/Policies/Utils/QGreedyPolicyWrapper.hpp:getPolicy, first loop: running maximum and the
+   number of entries checkEqualGeneral to it (the equality test comes before the `>` test) *)
+Fixpoint greedy_scan (mx : Q) (count : nat) (l : vec) : Q * nat :=
+  match l with
+  | [] => (mx, count)
+  | val :: t => if eqGeneral val mx then greedy_scan mx (S count) t
+                else if Qlt_le_dec mx val then greedy_scan val 1%nat t
+                else greedy_scan mx count t
+  end.
+Definition inv_count (c : nat) : Q := 1 / inject_Z (Z.of_nat c).
+(* second loop: p[a] = checkEqualGeneral(q[a], max) ? 1.0/count : 0.0 *)
+Definition greedy_row (r : vec) : vec :=
+  match r with
+  | [] => []
+  | x :: t => let '(mx, count) := greedy_scan x 1%nat t in
+              map (fun v => if eqGeneral v mx then inv_count count else 0) r
+  end.
+(* src: MDP/Policies/QGreedyPolicy.cpp:getPolicy *)
+Definition greedy_matrix (q : mat) : mat := map greedy_row q.
+
+(* src: PolicyIteration.hpp:operator(): some entry with checkDifferentSmall(matrix(s,a), newMatrix(s,a)) *)
+Definition matrices_differ (m1 m2 : mat) : bool :=
+  existsb (fun p => existsb (fun e => negb (eqSmall (fst e) (snd e))) (combine (fst p) (snd p))) (combine m1 m2).
+
+(* src: PolicyIteration.hpp:operator(): the `goto nextLoop` loop, on explicit fuel (None = out of fuel).
+   [matrix] is always the greedy matrix of the current qfun, which is what eval(p) evaluates;
+   [vparam] is what eval.setValues stored. Returns the number of evaluations and the last Q. *)
+Fixpoint pi_loop (S A : nat) (cq : vec -> mat) (gamma : Q) (h : nat) (tol : Q)
+                 (fuel iters : nat) (matrix : mat) (vparam : vec) : option (nat * mat) :=
+  match fuel with
+  | O => None
+  | Datatypes.S f =>
+    let '(_, v, q) := pe_run_with S A cq gamma matrix h tol vparam in
+    let newMatrix := greedy_matrix q in
+    if matrices_differ matrix newMatrix
+    then pi_loop S A cq gamma h tol f (Datatypes.S iters) newMatrix v
+    else Some (Datatypes.S iters, q)
+  end.
+
+Definition pi_run_with (S A : nat) (cq : vec -> mat) (gamma : Q) (h : nat) (tol : Q) (fuel : nat) : option (nat * mat) :=
+  pi_loop S A cq gamma h tol fuel O (greedy_matrix (mtab S A (fun _ _ => 0))) [].
+Definition pi_run (m : mdp) (h : nat) (tol : Q) (fuel : nat) : option (nat * mat) :=
+  pi_run_with (nS m) (nA m) (compute_q m (imm_rewards m)) (gam m) h tol fuel.
+Definition pi_run_g (g : gmodel) (h : nat) (tol : Q) (fuel : nat) : option (nat * mat) :=
+  pi_run_with (gS g) (gA g) (compute_q_g g (imm_rewards_g g)) (ggam g) h tol fuel.
